@@ -59,7 +59,7 @@ func usesBodies(T string) [][]*ir.S {
 		{ir.Cont("ga", ir.N("action", "go", ir.N("input", "", ir.Leaf("p", T)), ir.N("output", "", ir.Leaf("q", "string"))))},
 		{ir.Uses("g2")},
 		{ir.Typedef("lt", "int64"), ir.Leaf("ltl", "lt")},
-		{leafD, ir.N("anydata", "gad")},
+		{leafD, ir.N("anydata", "gad"), ir.N("anyxml", "gax")},
 		{ir.Cont("gn", ir.Uses("g2"), ir.Leaf("own", T))},
 		{ll3, ir.Leaf("after", T)},
 		// constraints and extension statements on the grouping's nodes
@@ -163,12 +163,36 @@ func USES(tier string, f func(Case)) {
 						if T != "string" && ds == "as-top" {
 							flags["submodule-uses-owner-definition"] = true // type t of the owner referenced from the submodule
 						}
+						variant := ""
+						switch (bi + si + sj) % 4 {
+						case 1: // every module carries a revision: registered under name and name@revision
+							a.Rev, as.Rev, b.Rev = "2020-01-01", "2019-05-05", "2021-02-02"
+							variant = " revisions"
+						case 2: // the submodule knows module b under a prefix of its own
+							if ds == "b-top" && (s1.mod == "as" || s2.mod == "as") {
+								as.Imports = nil
+								as.Alias = map[string]string{"z": "b"}
+								for _, st := range as.Body {
+									renameUses(st, "b:g", "z:g")
+								}
+								variant = " submodule-alias"
+							}
+						}
 						w := ir.NewWorld(a, as, b)
-						f(Case{Desc: fmt.Sprintf("T=%s body#%d def=%s uses=%s,%s", T, bi, ds, s1.id, s2.id), W: w, Flags: flags, Sites: used})
+						f(Case{Desc: fmt.Sprintf("T=%s body#%d def=%s uses=%s,%s%s", T, bi, ds, s1.id, s2.id, variant), W: w, Flags: flags, Sites: used})
 					}
 				}
 			}
 		}
+	}
+}
+
+func renameUses(s *ir.S, from, to string) {
+	if s.Kind == "uses" && s.Name == from {
+		s.Name = to
+	}
+	for _, k := range s.Kids {
+		renameUses(k, from, to)
 	}
 }
 
@@ -253,6 +277,15 @@ func AugWorld(augs []AugSpec) *ir.World {
 		}
 		path := "/a:" + strings.ReplaceAll(x.Target, "/", "/a:")
 		mods[x.Mod].Body = append(mods[x.Mod].Body, ir.Aug(path, body...))
+	}
+	h := 0
+	for _, x := range augs {
+		h += len(x.Target)*7 + x.Body*3 + len(x.Mod)
+	}
+	if h%3 == 1 { // every module carries a revision
+		for i, m := range order {
+			m.Rev = fmt.Sprintf("202%d-01-01", i)
+		}
 	}
 	return ir.NewWorld(order...)
 }
